@@ -182,7 +182,43 @@ func (g *Gen) tagByName(n string) (int, bool) {
 	// make sure all named types of the module are registered
 	g.registerModuleTypes()
 	id, ok := g.tags[n]
+	if !ok {
+		// a named type of an imported package (e.g. *bytes.Buffer)
+		if t := g.namedTypeByName(strings.TrimPrefix(n, "*")); t != nil {
+			if strings.HasPrefix(n, "*") {
+				return g.typeTag(types.NewPointer(t)), true
+			}
+			return g.typeTag(t), true
+		}
+	}
 	return id, ok
+}
+
+// namedTypeByName finds pkg.T among all packages of the program (module packages first).
+func (g *Gen) namedTypeByName(tn string) types.Type {
+	parts := strings.SplitN(tn, ".", 2)
+	if len(parts) != 2 {
+		return nil
+	}
+	for _, sp := range g.spkgs {
+		if sp.Pkg.Name() == parts[0] {
+			if obj := sp.Pkg.Scope().Lookup(parts[1]); obj != nil {
+				return obj.Type()
+			}
+		}
+	}
+	var found types.Type
+	for _, sp := range g.prog.AllPackages() {
+		if sp.Pkg.Name() == parts[0] {
+			if obj, ok := sp.Pkg.Scope().Lookup(parts[1]).(*types.TypeName); ok {
+				if found != nil && !types.Identical(found, obj.Type()) {
+					return nil // ambiguous package name
+				}
+				found = obj.Type()
+			}
+		}
+	}
+	return found
 }
 
 var registered bool
